@@ -89,6 +89,20 @@ class Binding(object):
             g.append(row)
             objs.append(row)
             origin.append(org)
+        if getattr(self, 'noise', False):
+            # the same rows reached through a history: rows sharing the ids of real rows are inserted in
+            # front and removed again (by index and by slice), the last row is popped and re-appended --
+            # reference following must see exactly the rows that are in the grid now
+            ids = [r['id'] for r in objs if 'id' in r]
+            junk = [{'id': i, 'junk': hs.MARKER} for i in ids[:2]] + [{'id': 'zz9', 'junk': hs.MARKER}]
+            for j in junk:
+                g.insert(0, j)
+            g.get('zz9')                      # the id index exists before the deletions
+            del g[0]
+            del g[0:len(junk) - 1]
+            if len(g) > 1:
+                last = g.pop()
+                g.append(last)
         return g, objs, origin
 
 
@@ -418,7 +432,9 @@ def replay_generated(rep, b, cases, viol):
         text = text_of(case)
         rows = case['rows']
         limits = limits_of(case)
+        b.noise = ('->' in text)      # reference following is exercised on a grid with a mutation history
         src_shape, calls = execute(b, text, rows, limits)
+        b.noise = False
         stats['cases'] += 1
         stats['calls'] += len(calls)
         stats['rows'] += len(rows)
